@@ -81,7 +81,12 @@ def run(ctx, f, rep):
             reg = fq.lock_regions(p)
             locks = [i for i, ev in enumerate(p.events) if ev.kind == "call" and short(ev.name) == "lock"]
             last_lock = locks[-1] if locks else None
-            stores = [i for i, ev in enumerate(p.events) if fq.is_store_to(ev, names["waker"])]
+            # publishing the receiver's waker: a store to the slot, or `Waker::clone_from(slot's waker, cx.waker())` updating the
+            # stored one in place (the form clippy's assigning_clones asks for)
+            def updates_in_place(ev):
+                return ev.kind == "call" and ev.extra != "inlined" and short(ev.name) == "clone_from" and "Waker" in ev.name and len(ev.args or ()) == 2 and \
+                    fq.mentions_field(ev.args[0], names["waker"])
+            stores = [i for i, ev in enumerate(p.events) if fq.is_store_to(ev, names["waker"]) or updates_in_place(ev)]
             pops = [i for i, ev in enumerate(p.events) if fq.heap_call(ev, names, "pop")]
             ok = False
             why = "no waker store / heap pop after the last lock acquisition"
@@ -91,9 +96,12 @@ def run(ctx, f, rep):
                 if st and pp:
                     s_i, p_i = st[-1], pp[-1]
                     ev = p.events[s_i]
-                    v = ev.value
-                    is_some_clone = v[0] == "agg" and v[3] == "Some" and pathq.mentions_call(v, lambda x: short(x[1]) == "clone") is not None and \
-                        pathq.mentions_call(v, lambda x: short(x[1]) == "waker") is not None
+                    if updates_in_place(ev):
+                        is_some_clone = pathq.mentions_call(ev.args[1], lambda x: short(x[1]) == "waker") is not None
+                    else:
+                        v = ev.value
+                        is_some_clone = v[0] == "agg" and v[3] == "Some" and pathq.mentions_call(v, lambda x: short(x[1]) == "clone") is not None and \
+                            pathq.mentions_call(v, lambda x: short(x[1]) == "waker") is not None
                     pop_ev = p.events[p_i]
                     pop_none = any(e[0] == "discr" and e[1] == pop_ev.result and c == ("eq", 0) for (e, c, _, _) in p.conds)
                     same_region = reg.get(s_i) == last_lock and reg.get(p_i) == last_lock
